@@ -1,0 +1,18 @@
+//go:build verif
+// +build verif
+
+package classifier
+
+// Verification hooks (build tag "verif"): a sink for trace events emitted at the
+// linearization points of the matching pipeline. Off unless a test installs a sink.
+
+const verifOn = true
+
+// VerifSink receives the events; nil means tracing is off.
+var VerifSink func(ev string, kv ...interface{})
+
+func verifEmit(ev string, kv ...interface{}) {
+	if s := VerifSink; s != nil {
+		s(ev, kv...)
+	}
+}
